@@ -293,11 +293,13 @@ func overlapping(a, b *simdjson.ParsedJson) string {
 // CURRENT document, exactly what a fresh destination reads.
 func (c *Ctx) c16ReusedDestinations(n int) {
 	r := c.Rng
-	var obj simdjson.Object
-	var arr simdjson.Array
+	// one destination PER ROUTE: a destination must meet the same internal buffers again,
+	// with other contents, for stale state in it to matter
+	var objs [3]simdjson.Object
+	var arrs [3]simdjson.Array
 	var reusePJ, cloneDst, deserDst *simdjson.ParsedJson
 	ser := simdjson.NewSerializer()
-	view := func(pj *simdjson.ParsedJson, reused bool) string {
+	view := func(pj *simdjson.ParsedJson, reused bool, ri int) string {
 		var b strings.Builder
 		defer func() {
 			if rr := recover(); rr != nil {
@@ -314,7 +316,7 @@ func (c *Ctx) c16ReusedDestinations(n int) {
 		case simdjson.TypeObject:
 			var o *simdjson.Object
 			if reused {
-				o, err = root.Object(&obj)
+				o, err = root.Object(&objs[ri])
 			} else {
 				o, err = root.Object(nil)
 			}
@@ -329,7 +331,7 @@ func (c *Ctx) c16ReusedDestinations(n int) {
 		case simdjson.TypeArray:
 			var a *simdjson.Array
 			if reused {
-				a, err = root.Array(&arr)
+				a, err = root.Array(&arrs[ri])
 			} else {
 				a, err = root.Array(nil)
 			}
@@ -358,7 +360,7 @@ func (c *Ctx) c16ReusedDestinations(n int) {
 		reusePJ = out.PJ
 		info := map[string]interface{}{"doc_text": printable(doc), "step": i}
 		c.Ev.Count("reused-destination", []byte(fmt.Sprint(i)+string(doc)), true)
-		for _, route := range []string{"parse-reuse", "clone-into-earlier-clone", "deserialize-into-earlier-result"} {
+		for ri, route := range []string{"parse-reuse", "clone-into-earlier-clone", "deserialize-into-earlier-result"} {
 			pj := out.PJ
 			switch route {
 			case "clone-into-earlier-clone":
@@ -375,8 +377,8 @@ func (c *Ctx) c16ReusedDestinations(n int) {
 				}
 				pj, deserDst = d, d
 			}
-			want := view(pj, false)
-			got := view(pj, true)
+			want := view(pj, false, ri)
+			got := view(pj, true, ri)
 			if got != want {
 				info["route"], info["reused_dst_reads"], info["fresh_dst_reads"] = route, trunc(got, 300), trunc(want, 300)
 				c.Violate("aliasing", "reading through a reused Object/Array destination shows another document's bytes", "reused-dst-stale", info)
